@@ -189,7 +189,7 @@ pub fn nvars_of(nq: u32, gs: &[G]) -> usize {
                 t(b, m);
                 t(c, m);
             }
-            G::For(x, coll, body) => {
+            G::For(x, coll, body) | G::ForList(x, coll, body) => {
                 *m = (*m).max(*x + 1);
                 coll.iter().for_each(|c| t(c, m));
                 body.iter().for_each(|b| g(b, m));
